@@ -11,6 +11,7 @@ import (
 	"github.com/Masterminds/semver/v3"
 
 	"github.com/spf13/pflag"
+	"mvdan.cc/sh/v3/interp"
 	"mvdan.cc/sh/v3/syntax"
 
 	task "github.com/go-task/task/v3"
@@ -164,7 +165,12 @@ func zzIntercept(e *task.Executor) {}
 
 //gosmt:stub github.com/go-task/task/v3/internal/execext.RunCommand
 func zzRunCommand(ctx context.Context, opts *execext.RunCommandOptions) error {
-	zzCommands = append(zzCommands, opts.Command)
+	if st := zzCmdStatus[opts.Command]; st != 0 {
+		return interp.NewExitStatus(st)
+	}
+	if !strings.HasPrefix(opts.Command, "pre ") {
+		zzCommands = append(zzCommands, opts.Command)
+	}
 	return nil
 }
 
